@@ -8,7 +8,7 @@ import z3
 
 import gen
 import netref
-from core import (Q, Tree, Stats, aff_json, Aff, Con, Piece, zconds, zcon, zclosed, zaff, zfrac, hex_of_float, run_driver,
+from core import (Q, Tree, Stats, aff_json, Aff, Con, Piece, zconds, zcon, zclosed, zaff, zfrac, zlin, hex_of_float, run_driver,
                   sig_bits, TAU, EncoderError, eval_pieces)
 from fw import (Check, get_convention, run_main, interior_and_boundary_points, compare_eval, value_mismatch, absorb_stats,
                 point_hex, step_panics, VALUE_TOL)
@@ -327,6 +327,7 @@ def main():
             chk.report("C01/afftree_from_layers/" + sig, "%s (%s) at x=%s: %s" % (case["id"], case["meta"], [float(v) for v in xf], d),
                        {"kind": "eval", "case": {"id": case["id"], "steps": case["steps"]}, "tree": "t", "point": point_hex(xf),
                         "expected": None if exp is None else [str(e) for e in exp], "meta": case["meta"]})
+    shipped_pattern_directed(chk, conv)
     chk.cov["rule"] = ("seeded layer sequences: input dim 1..3, 1..3 linear layers of width 1..3, per-neuron activation in {none, "
                        "ReLU, leaky(0,1/4,1/2,2,-1), hard tanh, hard sigmoid}, head in {none, argmax, class}, precondition in {none, "
                        "box, half-space, triangle, slab, infeasible, random}; structured weights forced in (duplicate, zero, "
@@ -344,3 +345,113 @@ def main():
 
 if __name__ == "__main__":
     run_main(main)
+
+
+# ----------------------------------------------------------------------------- shipped networks, pattern-directed (thorough)
+
+def pattern_worker(args):
+    """decide a chunk of terminal regions of one shipped network (DESIGN 5 C01, pattern-directed encoding)"""
+    export, layers, n, idxs, conv = args
+    T = Tree(export)
+    out = {"decided": 0, "undecided": [], "cands": [], "thin": 0, "stats": None}
+    q = Q(n, timeout_ms=10000)
+    xs = q.xs
+    box = [z3.And(x <= BOX, x >= -BOX) for x in xs]
+    for idx in idxs:
+        conds, _ = T.path_conds(idx, conv)
+        region = [zclosed(c.closed(0), xs) for c in conds] + box
+        # a point of the tau-tightened region chooses the activation pattern to prove
+        r, m = q.check([zclosed(c.closed(-TAU), xs) for c in conds] + box)
+        if r == "unsat":
+            out["thin"] += 1        # thinner than tau: LP-tolerance band, nothing to prove
+            continue
+        if r == "unknown":
+            out["undecided"].append(idx)
+            continue
+        x0 = [FR(float(v)) for v in m]
+        val0, pat, st = netref.net_exact(layers, x0)
+        ok = True
+        # (a) no point of the region lies beyond a breakpoint of the pattern by more than DELTA on the other side
+        for c in pat:
+            a, b = c.closed(0)                      # a.x <= b holds on the pattern region
+            na = sum(abs(v) for v in a) or FR(1)
+            r, mm = q.check(region + [zlin(a, xs) >= zfrac(b + DELTA * na)], sample_tag="C01 pattern-directed: region inside pattern")
+            if r == "sat":
+                ok = False
+                out["cands"].append({"node": idx, "point": [str(v) for v in mm], "kind": "pattern"})
+                break
+            if r == "unknown":
+                ok = False
+                out["undecided"].append(idx)
+                break
+        if not ok:
+            continue
+        # (b) on the region the terminal map equals the network's affine map under the pattern (within EPS)
+        f = T.aff(idx)
+        if f.outdim != st.outdim:
+            out["cands"].append({"node": idx, "point": [str(v) for v in x0], "kind": "dim"})
+            continue
+        diffs = []
+        for r1, c1, r2, c2 in zip(f.M, f.c, st.M, st.c):
+            d = zlin([p - q_ for p, q_ in zip(r1, r2)], xs) + zfrac(c1 - c2)
+            diffs += [d > zfrac(EPS), d < zfrac(-EPS)]
+        r, mm = q.check(region + [z3.Or(diffs)], sample_tag="C01 pattern-directed: terminal map equals pattern map")
+        if r == "sat":
+            out["cands"].append({"node": idx, "point": [str(v) for v in mm], "kind": "value"})
+        elif r == "unknown":
+            out["undecided"].append(idx)
+        else:
+            out["decided"] += 1
+    out["stats"] = (q.stats.sat, q.stats.unsat, q.stats.unknown, q.stats.solver_s, q.stats.samples)
+    return out
+
+
+def shipped_pattern_directed(chk, conv):
+    """thorough tier: res/nn/mnist-5-5.npz (20 ReLUs, thousands of regions) decided region by region"""
+    if chk.tier != "thorough":
+        return
+    path, n = "/repo/res/nn/mnist-5-5.npz", 7
+    steps = [{"op": "read_layers", "name": "L", "path": path}, {"op": "from_layers", "name": "t", "dim": n, "layers": "L"}, {"op": "export", "tree": "t"}]
+    res = run_driver([{"id": "mnist", "steps": steps}], profile="release", tag="c01m")["mnist"]
+    if step_panics(res):
+        chk.report("C01/afftree_from_layers/panic", "mnist-5-5 does not distill: %s" % step_panics(res)[0][1],
+                   {"kind": "panic", "case": {"id": "mnist", "steps": steps}})
+        return
+    layers = netref.layers_from_driver(res[0]["out"]["layers"])
+    export = res[2]["out"]
+    T = Tree(export)
+    terms = T.terminals()
+    cap = int(os.environ.get("VERIF_C01_MNIST_TERMINALS", "100000"))
+    terms = terms[:cap]
+    chunks = [terms[i::64] for i in range(64)]
+    with Pool(16) as pool:
+        outs = pool.map(pattern_worker, [(export, layers, n, ch, conv) for ch in chunks if ch], chunksize=1)
+    decided = thin = 0
+    cands = []
+    for o in outs:
+        absorb_stats(chk, o["stats"])
+        decided += o["decided"]
+        thin += o["thin"]
+        for u in o["undecided"]:
+            chk.undecide("mnist-5-5 terminal %d" % u, "solver unknown/timeout")
+        cands += o["cands"]
+    chk.programs += 1
+    chk.nontrivial.add("mnist-5-5")
+    chk.oblige(True, decided)
+    chk.tolerance_band += thin
+    chk.cov["mnist_5_5"] = {"terminals": len(T.terminals()), "examined": len(terms), "decided": decided, "thinner_than_tau": thin,
+                            "counterexample_candidates": len(cands), "relu_units": netref.n_units(layers)}
+    # native replay of candidates
+    if cands:
+        pts = [[hex_of_float(float(FR(s))) for s in c["point"]] for c in cands[:50]]
+        rr = run_driver([{"id": "r", "steps": steps + [{"op": "eval", "tree": "t", "points": pts}]}], profile="release", tag="c01mr")["r"]
+        for c, real in zip(cands[:50], rr[-1]["out"]):
+            xf = [FR(float(FR(s))) for s in c["point"]]
+            exp = netref.net_exact(layers, xf)[0]
+            d = value_mismatch(real, exp, tol=EPS)
+            if d is None:
+                chk.unreplayed.append("mnist-5-5 terminal %d (%s) at %s: does not reproduce natively" % (c["node"], c["kind"], c["point"][:3]))
+            else:
+                chk.report("C01/afftree_from_layers/shipped-mnist/" + c["kind"], "mnist-5-5 at x=%s: %s" % ([float(v) for v in xf], d),
+                           {"kind": "eval", "case": {"id": "mnist", "steps": steps}, "tree": "t", "point": point_hex(xf),
+                            "expected": [str(e) for e in exp]})
